@@ -80,4 +80,20 @@ def expected (h : Adts) : Aac.Info :=
 def lengthEstimate (h : Adts) : Ratio :=
   ⟨(samples h : Int) * (((build h).length : Int) - 1), (((build h).length * rate h : Nat) : Int)⟩
 
+/-! mutagen looks at the first 100 frames only -/
+
+def samplesL (frs : List Frame) : Nat := (frs.map fun fr => (fr.nordbif + 1) * 1024).sum
+
+def rawBitsL (protectionAbsent : Nat) (frs : List Frame) : Int :=
+  (frs.map fun fr => (8 * (fr.body.length : Int) - 8 * crcBytes protectionAbsent fr.nordbif)).sum
+
+/-- what `AACInfo` reports for a stream of any length ≥ 3: rate and channels of the fixed header, bit rate and the
+`length` guess from the first 100 frames: `samples₁₀₀ · (N - 1) / (bytes₁₀₀ · rate)` (N = file size) -/
+def expectedFirst100 (h : Adts) : Aac.Info :=
+  let ex := h.frames.take 100
+  { channels := channelsOf h.chanConfig, sampleRate := rate h,
+    bitrate := ⟨rawBitsL h.protectionAbsent ex * rate h, samplesL ex⟩,
+    length := ⟨(samplesL ex : Int) * (((build h).length : Int) - 1), (((ex.flatMap (frameBytes h)).length * rate h : Nat) : Int)⟩,
+    adif := false }
+
 end Mutagen.Spec.Aac
